@@ -13,10 +13,7 @@ def corpus_for(tier, seed):
     return schemas.corpus(n, seed)
 
 
-def prepare(tier, seed):
-    """Render IDL, run the builder (plain and keep_unknown_fields), build gencases.  Always from the
-    working tree; cargo only recompiles what changed."""
-    ss = corpus_for(tier, seed)
+def thrift_units(tier, seed, ss):
     d = os.path.join(c.OUT, "corpus", f"thrift-{tier}-{seed}")
     os.makedirs(d, exist_ok=True)
     units = []
@@ -27,10 +24,15 @@ def prepare(tier, seed):
             open(p, "w").write(txt)
         units.append(gen.Unit(s["name"], p))
         units.append(gen.Unit(s["name"] + "k", p, keep=True))
-    ok, log = gen.build_corpus(units, f"thrift-{tier}-{seed}")
-    if not ok:
-        raise c.ToolError("gencases does not build:\n" + log[-5000:])
-    return ss, units
+    return units
+
+
+def prepare(tier, seed):
+    """Render IDL, run the builder (plain and keep_unknown_fields; the protobuf corpus rides along so
+    that all checks share one gencases build).  Always from the working tree; cargo only recompiles what changed."""
+    import pbcheck
+    tss, tunits, pss, punits = pbcheck.prepare_all(tier, seed)
+    return tss, tunits
 
 
 def cases_for(tier, seed, ss):
